@@ -1015,10 +1015,13 @@ func checkLoaderStreams(p *core.Program, r *core.Report) {
 		}
 		opensFile := false
 		var sites []*ssa.Call
-		var scan func(f *ssa.Function)
+		// the loader and the in-repo functions it calls (readSystem(r io.Reader) shared by two loaders); a reader that is a
+		// parameter there is resolved to what the call sites inside this closure pass
+		paramArg := map[*ssa.Parameter][]ssa.Value{}
+		var scan func(f *ssa.Function, depth int)
 		seen := map[*ssa.Function]bool{}
-		scan = func(f *ssa.Function) {
-			if seen[f] {
+		scan = func(f *ssa.Function, depth int) {
+			if seen[f] || depth > 4 {
 				return
 			}
 			seen[f] = true
@@ -1028,7 +1031,7 @@ func checkLoaderStreams(p *core.Program, r *core.Report) {
 					if !ok {
 						continue
 					}
-					callee := c.Common().StaticCallee()
+					callee := seamCallee(p, c.Common())
 					if callee == nil {
 						continue
 					}
@@ -1038,14 +1041,25 @@ func checkLoaderStreams(p *core.Program, r *core.Report) {
 					}
 					if isReaderMethod(callee) {
 						sites = append(sites, c)
+						continue
+					}
+					if len(callee.Blocks) > 0 && core.InRepo(pkgPathOf(callee)) {
+						for k, a := range c.Common().Args {
+							if k < len(callee.Params) {
+								paramArg[callee.Params[k]] = append(paramArg[callee.Params[k]], a)
+							}
+						}
+						scan(callee, depth+1)
 					}
 				}
 			}
 			for _, a := range f.AnonFuncs {
-				scan(a)
+				scan(a, depth)
 			}
 		}
-		scan(fn)
+		scan(fn, 0)
+		loaderParamArg = paramArg
+		loaderProgram = p
 		if !opensFile {
 			continue
 		}
@@ -1085,6 +1099,16 @@ func loaderReaderKind(v ssa.Value, depth int) (string, string) {
 		return loaderReaderKind(x.X, depth+1)
 	case *ssa.ChangeInterface:
 		return loaderReaderKind(x.X, depth+1)
+	case *ssa.Parameter:
+		kind, why := "unknown", "a parameter no call site of the load chain binds"
+		for _, a := range loaderParamArg[x] {
+			k, w := loaderReaderKind(a, depth+1)
+			if k != "stream" && k != "whole" {
+				return k, w
+			}
+			kind, why = k, w
+		}
+		return kind, why
 	case *ssa.Phi:
 		kind, why := "", ""
 		for _, e := range x.Edges {
@@ -1114,13 +1138,17 @@ func loaderReaderKind(v ssa.Value, depth int) (string, string) {
 			return loaderReaderKind(c, depth+1)
 		}
 	case *ssa.Call:
-		callee := x.Common().StaticCallee()
+		callee := seamCallee(loaderProgram, x.Common())
 		if callee == nil {
 			return "unknown", "dynamic call"
 		}
 		switch callee.String() {
 		case "os.Open", "os.OpenFile":
 			return "stream", callee.String()
+		case "io.Pipe":
+			// the read end of a pipe delivers whatever the writing goroutine copies into it until it closes (O15.4 decides
+			// that it does close); nothing fixes the amount beforehand
+			return "stream", "the read end of an io.Pipe"
 		case "bufio.NewReader", "bufio.NewReaderSize", "io.TeeReader", "io.NopCloser":
 			k, w := loaderReaderKind(x.Common().Args[0], depth+1)
 			if k == "stream" {
@@ -1175,4 +1203,27 @@ func fromStatSize(v ssa.Value, depth int) bool {
 		return x.Common().IsInvoke() && x.Common().Method.Name() == "Size"
 	}
 	return false
+}
+
+var loaderParamArg map[*ssa.Parameter][]ssa.Value
+var loaderProgram *core.Program
+
+// seamCallee: the static callee, or the function a seam variable (flow.SetSeams) was initialised with.
+func seamCallee(p *core.Program, com *ssa.CallCommon) *ssa.Function {
+	if f := com.StaticCallee(); f != nil {
+		return f
+	}
+	if com.IsInvoke() || p == nil {
+		return nil
+	}
+	if ld, ok := com.Value.(*ssa.UnOp); ok && ld.Op == token.MUL {
+		if g, ok := ld.X.(*ssa.Global); ok {
+			if v, ok := g.Object().(*types.Var); ok {
+				if fn, ok := flow.SeamTarget(v).(*types.Func); ok {
+					return p.SSA.FuncValue(fn)
+				}
+			}
+		}
+	}
+	return nil
 }
